@@ -57,6 +57,40 @@ func rt_30(c *core.Ctx, p *core.Prog) {
 				l := core.LoadedField(cl.Call.Args[0])
 				return l != nil && core.FieldVar(l) == fv
 			}
+			// the request may be counted by a small helper that is handed the pointer (`requestNewField(node, b.updateRequest)`)
+			direct := isInc
+			isInc = func(j ssa.Instruction) bool {
+				if direct(j) {
+					return true
+				}
+				cl, ok := j.(*ssa.Call)
+				if !ok {
+					return false
+				}
+				h := cl.Call.StaticCallee()
+				if h == nil || len(h.Blocks) == 0 || !core.InRepo(core.FnPkgPath(h)) {
+					return false
+				}
+				for k, a := range cl.Call.Args {
+					l := core.LoadedField(a)
+					if l == nil || core.FieldVar(l) != fv || k >= len(h.Params) {
+						continue
+					}
+					prm := h.Params[k]
+					miss, _ := (core.PathQuery{Fn: h, ExitReturnOnly: true, Avoid: func(x ssa.Instruction) bool {
+						c2, ok := x.(*ssa.Call)
+						if !ok {
+							return false
+						}
+						f := core.CalleeObj(c2)
+						return f != nil && f.Name() == "Inc" && len(c2.Call.Args) > 0 && c2.Call.Args[0] == ssa.Value(prm)
+					}}).Exists()
+					if !miss {
+						return true
+					}
+				}
+				return false
+			}
 			skip, _ := (core.PathQuery{Fn: fn, To: st, Avoid: isInc}).Exists()
 			c.Check(!skip, key, p.Pos(st.Pos()), core.FuncName(fn),
 				"the latch is cleared only after the request was counted",
